@@ -38,6 +38,12 @@ KIND_ERRORS.update({
                       'non-orthogonal or rotated cell',
     'cartsq_mean_xyz': 'squared components are averaged (not summed) over xyz',
 })
+KIND_ERRORS.update({
+    'index_truthiness': '`.any()` / `.all()` of an array of positions is used as an emptiness test: it asks whether some position is non-zero, so a '
+                        'single hit at position 0 counts as "nothing found"',
+    'isin_set': 'np.isin / np.in1d receives a set (or dict view): numpy treats it as one object, so no element is ever found in it',
+})
+EUCLID_QUERY = 'nearest neighbours are searched with a non-periodic tree (plain Cartesian distances): pairs that are close across a cell face are missed'
 ALL_ERRORS = {**KIND_ERRORS, **STRICT_ERRORS}
 
 
